@@ -278,7 +278,7 @@ Fixpoint eval (fuel : nat) (c : ctx) (q : ereq) (e : env) {struct fuel} : eres *
         | [] => (EIds (rev acc), e)
         | cand :: rest =>
             match eval f c (QRule r cand) e with
-            | (EFound (Some m), _) => eval f c (QNthOf r rest (loc_id c m :: acc)) e
+            | (EFound (Some _), _) => eval f c (QNthOf r rest (loc_id c cand :: acc)) e   (* the sibling itself is kept *)
             | (EFound None, _) => eval f c (QNthOf r rest acc) e
             | (o, _) => (o, e)
             end
